@@ -517,7 +517,10 @@ def make_imputer(world, iid, icfg):
 
 
 def default_value(world, j):
-    return -(j + 1)      # never collides with row values (which are >= 0)
+    """Configured default of feature j: negative (never a row value) or, for a third of the features, a falsy 0."""
+    if H(world.seed, "dflt?", j) % 3 == 0:
+        return 0
+    return -(j + 1)
 
 
 EXPLAINER_CLASSES = {"pfi": IncrementalPFI, "sage": IncrementalSage, "batch": BatchSage,
